@@ -508,10 +508,31 @@ theorem runtime_setup_accept_iff (hR : R.Canonical) (hI : R.impliesEval = true) 
     exact accept_iff c R hR f h0 h1 σ N hN
   | false => simp only [Bool.false_eq_true, if_false]; exact accept_iff c R hR f h0 h1 σ N hN
 
-/-- a `require` executed in a running scenario: when it is given a monitor it obeys `accept_iff` -/
-theorem dynamic_require_monitored (hR : R.Canonical) (hd : R.dynMonitored = true) (hI : R.impliesEval = true) (f : F)
+/-- a requirement registered at run time and tested on its first verdict like on every later one goes through
+    exactly the checks of a requirement that was there from the start -/
+theorem runRegistered_eq_run (f : F) (σ : Trace) (N : Nat) (hN : 0 < N) :
+    runRegistered c R R.stepReject f σ N = run c R f σ N := by
+  unfold runRegistered run
+  cases N with
+  | zero => omega
+  | succ n =>
+    have hn : ¬ (n + 1 = 0) := by omega
+    simp only [Nat.add_sub_cancel, hn, if_false]
+    have hsplit : findFrom (fun t => R.stepReject.contains (evalAt c σ (t + 1) f 0)) 0 (n + 1) =
+        if R.stepReject.contains (evalAt c σ 1 f 0) = true then some 0
+        else findFrom (fun t => R.stepReject.contains (evalAt c σ (t + 1) f 0)) 1 n := by
+      rw [findFrom]
+    rw [hsplit]
+    cases h0 : R.stepReject.contains (evalAt c σ 1 f 0) with
+    | true => simp only [if_true]
+    | false => simp only [Bool.false_eq_true, if_false]
+
+/-- a `require` executed in a running scenario (compose block): same criterion, counted from the step in which
+    the statement executes -/
+theorem dynamic_require_monitored (hR : R.Canonical) (hD : R.RuntimeCanonical) (f : F)
     (h0 : f.okZero c false = true) (h1 : f.okZero c true = true) (σ : Trace) (N : Nat) (hN : 0 < N) :
     runDynamic c R f σ N = .accepted ↔ sat σ N f 0 = true := by
+  obtain ⟨hd, hI⟩ := hD
   unfold runDynamic
   cases hp : f.prop with
   | true =>
@@ -519,21 +540,57 @@ theorem dynamic_require_monitored (hR : R.Canonical) (hd : R.dynMonitored = true
     rw [immediate_eq_run c R hR f hp (by rw [hI]; exact evaluable_of_impliesEval f hp) σ N hN]
     exact accept_iff c R hR f h0 h1 σ N hN
   | false =>
-    simp only [Bool.false_eq_true, if_false, hd, if_true]
+    simp only [Bool.false_eq_true, if_false, hd]
+    rw [runRegistered_eq_run c R f σ N hN]
     exact accept_iff c R hR f h0 h1 σ N hN
 
-/-- … and when it is not (as `_addDynamicRequirement` behaves today) a temporal requirement is vacuous -/
-theorem dynamic_require_unmonitored_vacuous (hd : R.dynMonitored = false) (f : F) (hp : f.prop = false) (σ : Trace)
-    (N : Nat) : runDynamic c R f σ N = .accepted := by
-  unfold runDynamic
-  rw [hd, hp]
-  rfl
+/-- … and it is rejected before the end of its scenario only when no continuation could satisfy it -/
+theorem dynamic_early_reject_hopeless (hR : R.Canonical) (hD : R.RuntimeCanonical) (f : F) (hp : f.prop = false)
+    (h1 : f.okZero c true = true) (σ : Trace) (N t : Nat) (hN : 0 < N)
+    (h : runDynamic c R f σ N = .rejectedAt t) (ht : t + 1 < N) :
+    ∀ (σ' : Trace) (m : Nat), Agree σ σ' (t + 1) → t + 1 ≤ m → sat σ' m f 0 = false := by
+  unfold runDynamic at h
+  simp only [hp, Bool.false_eq_true, if_false, hD.1] at h
+  rw [runRegistered_eq_run c R f σ N hN] at h
+  exact early_reject_hopeless c R hR f h1 σ N t hN h ht
 
-/-- without `Implies.evaluate` a non-temporal implication executed at run time ends in an exception -/
-theorem implies_not_evaluable_crashes (hI : R.impliesEval = false) (a b : F) (hp : (F.implies a b).prop = true)
-    (σ : Trace) (N : Nat) : runDynamic c R (.implies a b) σ N = .crashed ∧ runRuntimeSetup c R (.implies a b) σ N = .crashed := by
-  unfold runDynamic runRuntimeSetup runImmediate
-  simp [hp, F.evaluable, hI]
+/-- values instead of Booleans: `evaluate()` of a non-temporal tree is truthy exactly when the Boolean
+    reading of the formula holds of the truth values of the atoms -/
+theorem evalPy_truth (v : Nat → PyVal) : ∀ (f : F), f.prop = true →
+    (f.evalPy v).truth = f.pval (fun a => (v a).truth)
+  | .atom _, _ => rfl
+  | .tt, _ => rfl
+  | .ff, _ => rfl
+  | .not f, h => by
+    simp only [F.prop] at h
+    simp [F.evalPy, F.pval, PyVal.ofBool, evalPy_truth v f h]
+  | .and a b, h => by
+    simp only [F.prop, Bool.and_eq_true] at h
+    simp [F.evalPy, F.pval, PyVal.ofBool, evalPy_truth v a h.1, evalPy_truth v b h.2]
+  | .or a b, h => by
+    simp only [F.prop, Bool.and_eq_true] at h
+    simp [F.evalPy, F.pval, PyVal.ofBool, evalPy_truth v a h.1, evalPy_truth v b h.2]
+  | .implies a b, h => by
+    simp only [F.prop, Bool.and_eq_true] at h
+    simp only [F.evalPy, F.pval]
+    rw [← evalPy_truth v a h.1, ← evalPy_truth v b h.2]
+    cases (a.evalPy v).truth <;> simp [PyVal.ofBool]
+  | .next _, h | .until _ _, h | .eventually _, h | .always _, h => by simp [F.prop] at h
+
+/-- evaluating on the returned values gives the outcome of evaluating on their truth values -/
+theorem runImmediateV_eq (f : F) (hp : f.prop = true) (v : Nat → PyVal) (σ : Trace)
+    (hσ : ∀ a, σ 0 a = (v a).truth) : runImmediateV R f v = runImmediate R f σ := by
+  unfold runImmediateV runImmediate
+  rw [evalPy_truth v f hp]
+  have : (fun a => (v a).truth) = σ 0 := by funext a; exact (hσ a).symm
+  rw [this]
+
+/-- with the atoms' values coerced by `bool()` the monitor sees exactly their truth values (`None` included) -/
+theorem atomInput_coerced (v : PyVal) : atomInput true v = some v.truth := rfl
+
+/-- without the coercion a `None` goes missing from the atom's history -/
+theorem atomInput_raw_none (v : PyVal) (h : v.isNone = true) : atomInput false v = none := by
+  simp [atomInput, h]
 
 end rule
 
